@@ -100,21 +100,22 @@ fn args_j<'tcx>(args: GenericArgsRef<'tcx>) -> J {
 fn dump_crate<'tcx>(tcx: TyCtxt<'tcx>, name: &str) -> J {
     let mut bodies = Vec::new();
     let mut n_err = 0i64;
+    let ext = std::cell::RefCell::new(std::collections::HashSet::new());
     for ldid in tcx.hir_body_owners() {
         let did = ldid.to_def_id();
         let kind = tcx.def_kind(did);
         match kind {
             DefKind::Fn | DefKind::AssocFn | DefKind::Closure => {
                 let body = tcx.optimized_mir(did);
-                bodies.push(dump_body(tcx, ldid, kind, body, None));
+                bodies.push(dump_body(tcx, ldid, kind, body, None, &ext));
                 let promoted = tcx.promoted_mir(did);
                 for (i, p) in promoted.iter_enumerated() {
-                    bodies.push(dump_body(tcx, ldid, kind, p, Some(i.as_usize())));
+                    bodies.push(dump_body(tcx, ldid, kind, p, Some(i.as_usize()), &ext));
                 }
             }
             DefKind::Const { .. } | DefKind::AssocConst { .. } | DefKind::Static { .. } => {
                 let body = tcx.mir_for_ctfe(did);
-                bodies.push(dump_body(tcx, ldid, kind, body, None));
+                bodies.push(dump_body(tcx, ldid, kind, body, None, &ext));
             }
             DefKind::AnonConst | DefKind::InlineConst => {
                 // array lengths, inline consts: bodies exist but no rule needs them
@@ -175,8 +176,29 @@ fn dump_crate<'tcx>(tcx: TyCtxt<'tcx>, name: &str) -> J {
         }
     }
 
+    let mut ext_sorted: Vec<DefId> = ext.borrow().iter().copied().collect();
+    ext_sorted.sort_by_key(|d| dpath(tcx, *d));
+    let ext_adts: Vec<J> = ext_sorted
+        .iter()
+        .map(|d| {
+            let adt = tcx.adt_def(*d);
+            let variants: Vec<J> = adt
+                .variants()
+                .iter_enumerated()
+                .map(|(vi, v)| {
+                    J::obj(vec![
+                        ("name", s(v.name)),
+                        ("idx", J::Num(vi.as_usize() as i64)),
+                        ("nfields", J::Num(v.fields.len() as i64)),
+                    ])
+                })
+                .collect();
+            J::obj(vec![("path", s(dpath(tcx, *d))), ("variants", J::Arr(variants))])
+        })
+        .collect();
     J::obj(vec![
         ("crate", s(name)),
+        ("ext_adts", J::Arr(ext_adts)),
         ("skipped_body_owners", J::Num(n_err)),
         ("bodies", J::Arr(bodies)),
         ("adts", J::Arr(adts)),
@@ -411,6 +433,7 @@ struct Cx<'a, 'tcx> {
     tcx: TyCtxt<'tcx>,
     body: &'a Body<'tcx>,
     env: TypingEnv<'tcx>,
+    ext: &'a std::cell::RefCell<std::collections::HashSet<DefId>>,
 }
 
 fn dump_body<'tcx>(
@@ -419,10 +442,11 @@ fn dump_body<'tcx>(
     kind: DefKind,
     body: &Body<'tcx>,
     promoted: Option<usize>,
+    ext: &std::cell::RefCell<std::collections::HashSet<DefId>>,
 ) -> J {
     let did = ldid.to_def_id();
     let env = TypingEnv::post_analysis(tcx, did);
-    let cx = Cx { tcx, body, env };
+    let cx = Cx { tcx, body, env, ext };
     let (file, line, exp) = span_j(tcx, body.span);
     let root = tcx.typeck_root_def_id(did);
     let locals: Vec<J> = body
@@ -708,7 +732,14 @@ impl<'a, 'tcx> Cx<'a, 'tcx> {
                 ("op", s(format!("{:?}", op))),
                 ("a", self.operand(a)),
             ]),
-            Rvalue::Discriminant(p) => J::obj(vec![("k", s("discr")), ("place", self.place(p))]),
+            Rvalue::Discriminant(p) => {
+                if let ty::Adt(a, _) = p.ty(self.body, self.tcx).ty.kind() {
+                    if !a.did().is_local() {
+                        self.ext.borrow_mut().insert(a.did());
+                    }
+                }
+                J::obj(vec![("k", s("discr")), ("place", self.place(p))])
+            }
             Rvalue::CopyForDeref(p) => J::obj(vec![
                 ("k", s("use")),
                 ("op", J::obj(vec![("k", s("copy")), ("place", self.place(p))])),
